@@ -1,6 +1,10 @@
 package main
 
-import "golang.org/x/tools/go/ssa"
+import (
+	"go/types"
+
+	"golang.org/x/tools/go/ssa"
+)
 
 // NativeFunc is a function value implemented by the engine (e.g. the cancel
 // function returned by the context.With* models).
@@ -26,5 +30,26 @@ func init() {
 		intrinsics["context.WithTimeout"] = ctxDerive
 		intrinsics["context.WithDeadline"] = ctxDerive
 		intrinsics["context.WithCancelCause"] = ctxDerive
+	})
+}
+
+// context.WithValue: the real one consults reflectlite for key comparability
+// (unsafe type words); the model builds the same *context.valueCtx directly.
+func ctxWithValue(in *Interp, c *frame, fn *ssa.Function, a []Value) Value {
+	t := in.namedType("context", "valueCtx")
+	if t == nil {
+		panic(unsupported("context.valueCtx not loaded"))
+	}
+	if p, ok := a[0].(Iface); !ok || p.t == nil {
+		panic(targetPanic{v: in.runtimeErr("cannot create context from nil parent")})
+	}
+	p := new(Value)
+	*p = Struct{a[0], a[1], a[2]}
+	return Iface{t: types.NewPointer(t), v: p}
+}
+
+func init() {
+	registerLate = append(registerLate, func() {
+		intrinsics["context.WithValue"] = ctxWithValue
 	})
 }
